@@ -279,6 +279,7 @@ def run_scenario(scen, chooser_factory, max_steps=4000, observe=True):
     H.ex = None
     H.futs = {}
     H.by_wid = []
+    H.reuse_calls = []
     H.api = []              # (user, op index, op, outcome)
     H.cancel_ok = {}
     tasks = scen.get("tasks", [])
@@ -306,10 +307,31 @@ def run_scenario(scen, chooser_factory, max_steps=4000, observe=True):
                 kw = kwargs()
                 if a.pop("newinit", False):
                     kw = {"initializer": simtasks.initializer, "initargs": ((), "tag1")}
+                prev = RE._executor
+                before = None
+                if prev is not None:
+                    before = {"id": prev.executor_id, "mw": prev._max_workers, "broken": prev._flags.broken is not None,
+                              "shutdown": prev._flags.shutdown, "pids": sorted(prev._processes),
+                              "kwargs_same": RE._executor_kwargs == dict(
+                                  context=None, timeout=a.get("timeout", 10), job_reducers=None, result_reducers=None,
+                                  initializer=kw.get("initializer"), initargs=kw.get("initargs", ()), env=None),
+                              "started": prev._executor_manager_thread is not None,
+                              "pending": len(prev._pending_work_items)}
+                del prev
+                t0 = len(E.ENG.trace)
                 ex = RE.get_reusable_executor(max_workers=a.get("max_workers"), timeout=a.get("timeout", 10),
                                               kill_workers=a.get("kill_workers", False),
                                               reuse=a.get("reuse", "auto"), **kw)
                 H.ex = ex
+                after = {"id": ex.executor_id, "mw": ex._max_workers, "broken": ex._flags.broken is not None,
+                         "shutdown": ex._flags.shutdown, "pids": sorted(ex._processes),
+                         "alive": sorted(p.pid for p in ex._processes.values() if p.alive),
+                         "started": ex._executor_manager_thread is not None}
+                window = E.ENG.trace[t0:]
+                H.reuse_calls.append({"user": ui, "args": a, "before": before, "after": after,
+                                      "faults_during": sum(1 for t in window if t[1] in ("timeout", "crash")),
+                                      "death_before": any(e[1] in ("CRASH", "DIE") for e in E.ENG.events),
+                                      "t0": t0, "t1": len(E.ENG.trace)})
                 out = f"id={ex.executor_id},mw={ex._max_workers},nproc={len(ex._processes)}," \
                       f"shutdown={ex._flags.shutdown},broken={ex._flags.broken is not None}"
             elif kind == "submit":
@@ -425,6 +447,7 @@ def run_scenario(scen, chooser_factory, max_steps=4000, observe=True):
                          if isinstance(o, E.SimSem) and o.value == 0 and o.owner is not None
                          and o.owner.kind == "proc" and not o.owner.proc.alive},
         "dropped": H.ex is None,
+        "reuse_calls": H.reuse_calls,
     }
     for k, f in H.futs.items():
         r = {"state": fut_obs(f)}
